@@ -191,6 +191,7 @@ def d1_inventory(ctx, idx):
             inference_q = _inference_function(idx).qualname[len('mitxgraders.'):]
         except AnalysisError:
             inference_q = None
+        unreviewed_q = set(getattr(idx, 'unreviewed', None) or [])
         for (fld, q), nodes in sorted(found.items()):
             where = '%s:%d' % (idx.funcs['mitxgraders.' + q].module.relpath, nodes[0].lineno)
             if fld in INVENTORY and q in INVENTORY[fld]:
@@ -199,6 +200,13 @@ def d1_inventory(ctx, idx):
                 r.ok('%s <- %s' % (fld, q), 'the method the inference from expect was moved to (its obligations: D2, D4)', where)
             elif fld == 'cls._negative_powers' and q in manager_writers:
                 r.ok('%s <- %s' % (fld, q), 'the context-manager object returned by enable_negative_powers (D8)', where)
+            elif fld in reviewed_fields and ('mitxgraders.' + q) in unreviewed_q and \
+                    any((fld, q0) not in found for q0 in INVENTORY[fld]):
+                # the write was MOVED (a reviewed writer no longer writes this field, a new function does): not an added writer;
+                # whether the new place keeps the order and conditions the rules demand is not decided here
+                gone = sorted(q0 for q0 in INVENTORY[fld] if (fld, q0) not in found)
+                r.undecided('%s <- %s' % (fld, q), 'the write `%s` moved: %s no longer write(s) %s, the new function %s does; it needs '
+                            'review' % (short(nodes[0]), ', '.join(gone), fld, q), where)
             elif fld in reviewed_fields:
                 r.violation('%s <- %s' % (fld, q), 'new writer of the reviewed persistent field %s: `%s`; state written here '
                             'survives the call and can change what a later call returns' % (fld, short(nodes[0])), where,
